@@ -18,7 +18,7 @@ func (g *vcgen) isRacyField(st types.Type, idx int) bool { return false }
 // GenUnit generates the verification condition of fn against its contract.
 func (e *Engine) GenUnit(fn *ssa.Function) (u *Unit) {
 	fc := e.ContractOf(fn)
-	u = &Unit{Fn: fn, Name: shortName(FullName(fn)), Sorts: newSorts(e)}
+	u = &Unit{Fn: fn, Name: shortName(FullName(fn)), Sorts: newSorts(e), UsedContracts: map[string]bool{}}
 	g := &vcgen{eng: e, fn: fn, fc: fc, u: u, s: u.Sorts, st: &State{m: map[string]string{}}, pc: "true",
 		vals: map[ssa.Value]string{}, tup: map[ssa.Value][]string{}, addr: map[ssa.Value]addrInfo{},
 		varSort: map[string]string{}, declared: map[string]bool{}, edgeCond: map[[2]int]string{}, reach: map[*ssa.BasicBlock]string{},
